@@ -73,7 +73,7 @@ CHECKS["C01"] = dict(
     assumptions=["keys are valid UTF-8; Delete of the empty key is unspecified and not generated",
                  "background cleanup jobs run on the real worker pool concurrently with the next steps (they must never change reads)"],
     parts=[
-        P("seq", "seq", "TestC01", dict(checks=1920, shards=16, timeout=900), dict(checks=6000, shards=16, timeout=3000)),
+        P("seq", "seq", "TestC01", dict(checks=1920, shards=16, timeout=900), dict(checks=40000, shards=16, timeout=3000)),
     ],
 )
 
@@ -88,7 +88,7 @@ CHECKS["C02"] = dict(
           "Oracle: MVCC reference model (harness/model); after EVERY step every open transaction and the autocommit client read every key and GetKeys and are compared. "
           "non-trivial = at least two different levels were open simultaneously AND a collector step ran while a snapshot (RR/SER) transaction was open that was already >= 2 committed versions of some key behind."),
     assumptions=_E1_ASSUME + ["ReadUncommitted: where a commit re-sequenced an older write behind a later uncommitted one, both candidates are accepted (statement is ambiguous there)"],
-    parts=[P("seq", "seq", "TestC02", dict(checks=2400, shards=16, timeout=900), dict(checks=10000, shards=16, timeout=3000))],
+    parts=[P("seq", "seq", "TestC02", dict(checks=2400, shards=16, timeout=900), dict(checks=60000, shards=16, timeout=3000))],
 )
 
 CHECKS["C03"] = dict(
@@ -97,7 +97,7 @@ CHECKS["C03"] = dict(
           "Oracle: reference model - Commit error class must be ErrTxSerialization iff (snapshot level and some written key has a newer committed version), never for RU/RC; after every step autocommit Get of every key and GetKeys equal the model "
           "(all keys of a commit switch together, nothing else changes). non-trivial = a predicted conflict on exactly one of >= 2 written keys, or a successful commit of >= 2 keys in a history with >= 2 commits."),
     assumptions=_E1_ASSUME,
-    parts=[P("seq", "seq", "TestC03", dict(checks=2400, shards=16, timeout=900), dict(checks=10000, shards=16, timeout=3000))],
+    parts=[P("seq", "seq", "TestC03", dict(checks=2400, shards=16, timeout=900), dict(checks=60000, shards=16, timeout=3000))],
 )
 
 CHECKS["C09"] = dict(
@@ -107,7 +107,7 @@ CHECKS["C09"] = dict(
           "Oracle 2 (metamorphic): the same program with all collector steps removed yields the identical observation log. "
           "non-trivial = some collector run actually removed >= 1 content file (hook trace) while >= 1 transaction was open."),
     assumptions=_E1_ASSUME,
-    parts=[P("seq", "seq", "TestC09", dict(checks=1920, shards=16, timeout=900), dict(checks=8000, shards=16, timeout=3000))],
+    parts=[P("seq", "seq", "TestC09", dict(checks=1920, shards=16, timeout=900), dict(checks=40000, shards=16, timeout=3000))],
 )
 
 CHECKS["C13"] = dict(
@@ -117,7 +117,7 @@ CHECKS["C13"] = dict(
           "Oracle: late op => ErrTxNotFound (Rollback => nil); full read-back of every observer after every step equals the reference model (which ignores late ops); state after restart equals the model. "
           "non-trivial = >= 1 late write was issued while a ReadUncommitted observer was open."),
     assumptions=_E1_ASSUME[:2] + ["known finding C13-late-write-accepted (writes through ended handles return nil and leak to ReadUncommitted readers): while it is listed as open, exactly that behaviour is excused and counted; everything else about late ops stays a violation"],
-    parts=[P("seq", "seq", "TestC13", dict(checks=1920, shards=16, timeout=900), dict(checks=6000, shards=16, timeout=3000))],
+    parts=[P("seq", "seq", "TestC13", dict(checks=1920, shards=16, timeout=900), dict(checks=40000, shards=16, timeout=3000))],
 )
 
 CHECKS["C14"] = dict(
@@ -127,7 +127,7 @@ CHECKS["C14"] = dict(
           "Oracle: walk of the roots - the multiset of regular-file contents (sha256) equals exactly one file per key the reference model says is readable; polled until equal, verdict only after the tree was stable for 3 s (a leak never goes away). "
           "non-trivial = the history contained an autocommit overwrite, a delete, a rollback, a conflict-aborted commit and a write superseded inside its transaction."),
     assumptions=_E1_ASSUME + ["quiescence is detected by polling; the worker pool is the real one"],
-    parts=[P("seq", "seq", "TestC14", dict(checks=1280, shards=16, timeout=900), dict(checks=4000, shards=16, timeout=3000))],
+    parts=[P("seq", "seq", "TestC14", dict(checks=1280, shards=16, timeout=900), dict(checks=24000, shards=16, timeout=3000))],
 )
 
 CHECKS["C17"] = dict(
@@ -137,7 +137,7 @@ CHECKS["C17"] = dict(
           "after a burst deletion a directory that once reached the limit and regained room must receive one of the next 64*k writes (k = number of directories; miss probability < 2e-28). "
           "non-trivial = some directory reached the limit and a root ended up with >= 2 directories (rotation)."),
     assumptions=_E1_ASSUME + ["directory choice is a uniform shuffle over the active directories (math/rand/v2 PCG seeded by fs_db); the only probabilistic assertion is the reuse probe, bound stated in the rule"],
-    parts=[P("seq", "seq", "TestC17", dict(checks=256, shards=16, timeout=900), dict(checks=1500, shards=16, timeout=3000))],
+    parts=[P("seq", "seq", "TestC17", dict(checks=256, shards=16, timeout=900), dict(checks=6000, shards=16, timeout=3000))],
 )
 
 CHECKS["C04"] = dict(
@@ -159,7 +159,7 @@ CHECKS["C05"] = dict(
           "Oracle: reference model across reopen (committed state identical, open transactions gone, every later write supersedes earlier data immediately and after every later reopen). "
           "non-trivial = an autocommit write after a reopen that is read after a further reopen, with >= 1 other database in the process."),
     assumptions=_E1_ASSUME,
-    parts=[P("seq", "seq", "TestC05", dict(checks=480, shards=16, timeout=900), dict(checks=2000, shards=16, timeout=3000))],
+    parts=[P("seq", "seq", "TestC05", dict(checks=480, shards=16, timeout=900), dict(checks=10000, shards=16, timeout=3000))],
 )
 
 CHECKS["C10"] = dict(
@@ -173,7 +173,7 @@ CHECKS["C10"] = dict(
           "non-trivial = the injected fault actually fired (hook/reader counter)."),
     assumptions=["the server side of an aborted upload finishes asynchronously: the check waits until no instrumented step happened for 40 ms before reading (can only miss, never invent a trace)",
                  "ENOSPC is injected at the File.Write wrapper (hook), free space through the disk-usage hook; all roots of the sandbox share one real filesystem"],
-    parts=[P("faults", "seq", "TestC10", dict(checks=3200, shards=16, timeout=900), dict(checks=20000, shards=16, timeout=3400))],
+    parts=[P("faults", "seq", "TestC10", dict(checks=3200, shards=16, timeout=900), dict(checks=100000, shards=16, timeout=3400))],
 )
 
 CHECKS["C11"] = dict(
@@ -184,7 +184,7 @@ CHECKS["C11"] = dict(
           "part 'errors': error values built from every exported sentinel under random fmt.Errorf(%w) chains / errors.Join with foreign errors -> adapter Error -> gRPC status -> adapter ClientError; class(client(server(e))) must equal class(e), non-sentinel errors must become ErrUnknown."),
     assumptions=_E1_ASSUME[:2] + ["differential via the shared model: both clients are compared with the same reference model rather than with each other (the inline runs are C01-C03, C13)",
                                   "known finding C13-late-write-accepted applies here too (writes through ended handles)"],
-    parts=[P("ext", "seq", "TestC11", dict(checks=320, shards=16, timeout=900), dict(checks=4000, shards=16, timeout=3400)),
+    parts=[P("ext", "seq", "TestC11", dict(checks=320, shards=16, timeout=900), dict(checks=20000, shards=16, timeout=3400)),
            P("errors", "unit", "TestC11Errors", dict(checks=60000, shards=16, timeout=600), dict(checks=1000000, shards=16, timeout=3000))],
 )
 
